@@ -145,6 +145,24 @@ def check_model(m, acc, mode, fam, k, only_alpha=None, only_ovr=None, only_form=
                 one(m, alpha, ovr, form, idof, acc, fam, k, mode, oi, tvals)
     if len(tvals) > 1:
         acc.nontriv(m)
+    if mode == "plain" and only_alpha is None:
+        # the SAME object evaluated on every assignment in sequence, forwards and backwards (neighbouring assignments differ in one value, e.g.
+        # -1 / -2): whatever the object remembers between calls must not change the answers
+        shared, _ = bind(m)
+        alphas = list(ref.assignments_dom(leaves, 4))
+        for alpha in alphas + alphas[::-1]:
+            want = ref.truth(m, alpha)
+            acc.n("transitions")
+            try:
+                got = shared.evaluate(dict(alpha)).as_tuple()
+            except BaseException as e:
+                acc.violation(None, {"fam": fam, "k": k, "ast": m, "mode": "shared"}, {"what": "evaluate raised on a re-used object", "exc": repr(e), "model": show(m)})
+                break
+            if tuple(map(int, got)) != (want, want):
+                acc.violation(None, {"fam": fam, "k": k, "ast": m, "mode": "shared"},
+                              {"what": "the same object evaluated on a sequence of interpretations gives a wrong value (history dependence)", "model": show(m),
+                               "assignment": alpha, "expected": want, "got": tuple(map(int, got))})
+                break
 
 
 def one(m, alpha, ovr, form, idof, acc, fam, k, mode, oi, tvals):
@@ -200,6 +218,9 @@ def replay(case, acc):
     from ..runner import tuplify
     if case.get("mode") == "leaf":
         leaf_models(acc)
+        return
+    if case.get("mode") == "shared":
+        check_model(tuplify(case["ast"]), acc, "plain", case["fam"], case["k"])
         return
     m = tuplify(case["ast"])
     check_model(m, acc, case["mode"], case["fam"], case["k"], only_alpha=case["alpha"], only_ovr=case["ovr"], only_form=case["form"])
